@@ -315,6 +315,104 @@ var scenarios = map[string]func(t *testing.T, rep *Report, root string){
 		}
 		w.S.StopAll()
 	},
+	// S10: snapshot directories are named after the instant their writer was CREATED and the newest name is
+	// "the most recent snapshot". A received snapshot whose file was created first (first chunk) and a local
+	// snapshot created after it but finished later: which one does a restart restore from?
+	"S10-local-snapshot-finishes-after-a-received-one": func(t *testing.T, rep *Report, root string) {
+		w := newWorld(t, rep, "S10-local-snapshot-finishes-after-a-received-one", root, SimOpts{SnapEvery: 5, PadBytes: 40000}, []uint64{1, 2, 3})
+		L := w.waitLeader(3 * time.Second)
+		F, O := w.others(L)[0], w.others(L)[1]
+		for i := 0; i < 2; i++ {
+			w.submit("rep", L, 0, false)
+			w.auto(100*time.Millisecond, nil, nil)
+		}
+		// F keeps receiving and committing, but its applies park: a backlog of committed, unapplied entries
+		fsm := w.S.Nodes[F].FSM
+		fsm.GateApply = make(chan struct{})
+		for i := 0; i < 4; i++ {
+			w.submit("rep", L, 0, false)
+			w.auto(100*time.Millisecond, nil, nil)
+		}
+		// F is cut off; the leader writes on, snapshots and compacts beyond F's log
+		w.S.Sever(L, F)
+		w.S.Sever(O, F)
+		for i := 0; i < 9; i++ {
+			w.submit("rep", L, 0, false)
+			w.auto(100*time.Millisecond, nil, nil)
+		}
+		w.auto(500*time.Millisecond, nil, nil)
+		w.S.HealAll()
+		// the first request of the transfer reaches F (the file is created), everything after it is lost for now
+		first := false
+		w.auto(3*time.Second, func(c *Call) bool {
+			if c.Kind == "IS" && c.To == F {
+				// (the sender's file position ran ahead while F was cut off: F first answers a request beyond its
+				// offset with "I have 0 bytes", then the content arrives)
+				if first {
+					return false
+				}
+				if c.IS.Offset == 0 && !c.IS.Done {
+					first = true
+				}
+				return true
+			}
+			return !(c.Kind == "AE" && c.To == F)
+		}, func() bool { return first && w.S.Nodes[F].R.VerifGetState().SnapshotOpen })
+		noTransfer := func(c *Call) bool { return !((c.Kind == "IS" || c.Kind == "AE") && c.To == F) }
+		if !first || !w.S.Nodes[F].R.VerifGetState().SnapshotOpen {
+			rep.Notes = append(rep.Notes, "S10: the first chunk did not open a file at F (scenario did not reach its window)")
+			if os.Getenv("VERIF_DEBUG") != "" {
+				fmt.Println(strings.Join(w.Trace, "\n"))
+				fmt.Println(w.S.StatusLine())
+			}
+			w.S.StopAll()
+			return
+		}
+		// F applies its backlog and starts a local snapshot, which parks inside Snapshot()
+		fsm.GateSnapshot = make(chan struct{})
+		close(fsm.GateApply)
+		fsm.GateApply = nil
+		parked := func() bool {
+			fsm.mu.Lock()
+			defer fsm.mu.Unlock()
+			for _, p := range fsm.Parked {
+				if p == "snapshot" {
+					return true
+				}
+			}
+			return false
+		}
+		w.auto(2*time.Second, noTransfer, parked)
+		if !parked() {
+			rep.Notes = append(rep.Notes, "S10: F did not start a local snapshot (scenario did not reach its window)")
+			close(fsm.GateSnapshot)
+			fsm.GateSnapshot = nil
+			w.S.StopAll()
+			return
+		}
+		// the rest of the transfer arrives: the received snapshot is published and installed
+		w.auto(3*time.Second, nil, func() bool {
+			return w.S.Nodes[F].R.VerifGetState().LastIncludedIndex >= w.S.Nodes[L].R.VerifGetState().LastIncludedIndex
+		})
+		inst := w.S.Nodes[F].R.VerifGetState().LastIncludedIndex
+		// now the local snapshot finishes
+		close(fsm.GateSnapshot)
+		fsm.GateSnapshot = nil
+		w.auto(500*time.Millisecond, nil, nil)
+		w.note("F installed the snapshot labelled %d; snapshots on its disk: %d", inst, countSnapshots(w.S.Nodes[F].Dir))
+		rep.Hit(fmt.Sprintf("S10:snapshots-on-disk:%d", countSnapshots(w.S.Nodes[F].Dir)))
+		// what a restart makes of that directory
+		img := w.S.Crash(F)
+		w.incs[F]++
+		if err := w.S.Restart(F, img, 1); err != nil {
+			w.violate("C14", "creating and starting a node over the directory of a crashed node failed", fmt.Sprintf("node %d: %v", F, err),
+				map[string]string{"oracle": "restart-total", "pattern": "older-snapshot-published-last"})
+			w.S.StopAll()
+			return
+		}
+		w.quiet()
+		w.S.StopAll()
+	},
 	// S3: two removals back to back: the second is built from the un-updated configuration
 	"S3-lost-removal": func(t *testing.T, rep *Report, root string) {
 		w := newWorld(t, rep, "S3-lost-removal", root, SimOpts{}, []uint64{1, 2, 3, 4, 5})
